@@ -798,6 +798,64 @@ def check_lazy_values(prog, run, classes, scope, floor):
                                "remembered value keeps describing the old %s" % (c.name, w.name, ", ".join("self." + h for h in hit), cname, m.name, cname, hit[0]))
 
 
+_CONTAINER_CALLS = {"dict", "list", "set", "defaultdict", "OrderedDict", "WeakKeyDictionary", "WeakValueDictionary", "deque", "Counter"}
+_MUTATORS = {"append", "add", "update", "setdefault", "clear", "pop", "popitem", "extend", "insert", "remove", "discard", "appendleft"}
+
+
+def check_module_state(prog, run, funcs, scope, floor):
+    r = run.rule("Z15", "anchored modules (%s): no function writes into a module-level mutable container (a dict / list / set / weak "
+                        "dictionary bound at module level: item stores, .setdefault / .add / .append / .clear ...): such a table outlives "
+                        "the request, document and schema it was filled for, so a later call is answered from an earlier one (a "
+                        "validation verdict remembered for other validators, a result for another schema). The package has no such "
+                        "write today" % scope, floor)
+    tables = {}
+    for f in funcs:
+        m = f.module
+        if m.name in tables:
+            continue
+        t = {}
+        for st in m.tree.body:
+            if isinstance(st, (ast.Assign, ast.AnnAssign)) and st.value is not None:
+                v = st.value
+                fresh = isinstance(v, (ast.Dict, ast.List, ast.Set, ast.DictComp, ast.ListComp, ast.SetComp)) or (
+                    isinstance(v, ast.Call) and (v.func.id if isinstance(v.func, ast.Name) else v.func.attr if isinstance(v.func, ast.Attribute) else None) in _CONTAINER_CALLS)
+                if fresh:
+                    for x in (st.targets if isinstance(st, ast.Assign) else [st.target]):
+                        if isinstance(x, ast.Name):
+                            t[x.id] = st
+        tables[m.name] = t
+        r.instance("%s: %d module-level containers" % (m.name, len(t)), nontrivial=False)
+    for f in funcs:
+        if isinstance(f.node, ast.Lambda):
+            continue
+        t = tables.get(f.module.name, {})
+        if not t:
+            continue
+        local = {x.id for x in own_walk(f.node) if isinstance(x, ast.Name) and isinstance(x.ctx, ast.Store)} | set(f.all_params)
+        aliases = {}
+        for n in own_walk(f.node):
+            # `table = _TABLE.setdefault(key, {})` / `table = _TABLE[key]`: what is written into `table` lives in _TABLE
+            if isinstance(n, ast.Assign) and len(n.targets) == 1 and isinstance(n.targets[0], ast.Name):
+                root = n.value
+                while isinstance(root, (ast.Call, ast.Attribute, ast.Subscript)):
+                    root = root.func if isinstance(root, ast.Call) else root.value
+                if isinstance(root, ast.Name) and root.id in t and root.id not in local:
+                    aliases[n.targets[0].id] = root.id
+        for n in own_walk(f.node):
+            nm = None
+            if isinstance(n, ast.Call) and isinstance(n.func, ast.Attribute) and n.func.attr in _MUTATORS and isinstance(n.func.value, ast.Name):
+                nm = n.func.value.id
+            elif isinstance(n, ast.Subscript) and isinstance(n.ctx, (ast.Store, ast.Del)) and isinstance(n.value, ast.Name):
+                nm = n.value.id
+            if nm is None:
+                continue
+            table = nm if (nm in t and nm not in local) else aliases.get(nm)
+            if table is not None:
+                run.report(r, "%s:%s:module-state(%s)" % (f.module.name, f.qualname, table), f.where(n),
+                           "%s writes into the module-level container `%s` (`%s`): what one call leaves there is seen by every later "
+                           "call in the process" % (f.qualname, table, _txt(getattr(n, "_parent", n))[:70]))
+
+
 def run_bundle(prog, run, files, floors=None):
     mods = _mods(files)
     funcs = [f for f in prog.all_funcs() if f.module.name in mods]
@@ -812,3 +870,4 @@ def run_bundle(prog, run, files, floors=None):
     check_char_class_tests(prog, run, funcs, scope, floors.get("Z12", 0))
     check_record_and_go_on(prog, run, funcs, scope, floors.get("Z13", 0))
     check_lazy_values(prog, run, classes, scope, floors.get("Z14", 0))
+    check_module_state(prog, run, funcs, scope, floors.get("Z15", 0))
